@@ -1,0 +1,15 @@
+//go:build verif
+
+package internal
+
+// VerifPoint, when set, is called at a handful of named places between critical sections of the poller
+// (see the verifPoint calls in poll_linux.go). A runtime monitor uses it to widen interleaving windows
+// (yield/sleep), to run the garbage collector inside a poll batch, or to count batch entries. It is nil
+// unless a monitor sets it and exists only under the `verif` build tag.
+var VerifPoint func(name string)
+
+func verifPoint(name string) {
+	if f := VerifPoint; f != nil {
+		f(name)
+	}
+}
